@@ -223,6 +223,13 @@ func runStep(self, root, layout string, pc pipeCase, st pipeStep, scratch string
 		plan[pipe.PkgPath(layout, b[0])+"|"+b[1]+"|T1"] = t1
 		plan[pipe.PkgPath(layout, b[0])+"|"+b[1]+"|T2"] = t2
 	}
+	// the lower-case twins of the shadow variant behave like T2
+	for k, v := range plan {
+		if strings.HasSuffix(k, "|T2") {
+			plan[strings.TrimSuffix(k, "|T2")+"|t1"] = v
+			plan[strings.TrimSuffix(k, "|T2")+"|t2"] = v
+		}
+	}
 	if st.Fault.Kind != "" && st.Fault.Kind != "none" {
 		pp := pipe.PkgPath(layout, st.Fault.Pkg)
 		switch st.Fault.At {
